@@ -32,7 +32,7 @@ Proof. unfold gset_allb. rewrite bool_decide_eq_true. reflexivity. Qed.
 
 Lemma elem_of_gset_filterb (p : positive -> bool) (x : gset positive) i :
   i ∈ gset_filterb p x <-> p i = true /\ i ∈ x.
-Proof. unfold gset_filterb. apply elem_of_filter. Qed.
+Proof. unfold gset_filterb. rewrite elem_of_filter. reflexivity. Qed.
 
 Lemma tasks_of_tasks_in h ids : tasks_of h ids = tasks_in h ids.
 Proof. reflexivity. Qed.
